@@ -774,7 +774,7 @@ def p3(x, y, z, b=0):
 
 
 def pt(x, y, z, *, t, c=0):
-    return x + 2 * z - c + t
+    return x + y + 2 * z - c + t
 """
 
 REBOUND = """def p2(x, y, a=0):
